@@ -775,6 +775,47 @@ def bounded(tier, seed):
                 b.fail("c07.buffered.content", inp, f"flow content {msg.raw_content!r}")
             if held > exp["bound"]:
                 b.fail("c07.memory.limit_plus_one_chunk", inp, f"held {held} > {exp['bound']}")
+    # ---- an addon answered the request itself in requestheaders (e.g. proxyauth's 407): crossing stream_large_bodies later must not
+    #      start streaming the request upstream (the late switch in check_body_size -> start_request_stream)
+    from mitmproxy import http as _http
+    from props.http_sansio import Run
+    for framing in ("cl", "chunked"):
+        for limit, thresh in [(None, "3"), ("9", "3"), (None, "0")]:
+            for also_stream in (False, True):
+                for n in (0, 1, 3, 4, 6):
+                    body = MARK[:n]
+                    for parts in _compositions(body, maxparts):
+                        inp = dict(case="addon_response", framing=framing, parts=[p.decode() for p in parts], body_size_limit=limit, stream_large_bodies=thresh,
+                                   second_addon_streams=also_stream)
+                        b.case(repr(sorted(inp.items())))
+
+                        def policy(name, flow, run):
+                            if name == "requestheaders":
+                                flow.response = _http.Response.make(407, b"auth required", {})
+                                if also_stream:
+                                    flow.request.stream = True
+
+                        r = Run(policy, body_size_limit=limit, stream_large_bodies=thresh)
+                        refused = []
+                        steps = [b"POST http://example.com/ HTTP/1.1\r\nHost: example.com\r\n" + (b"Content-Length: %d\r\n\r\n" % n if framing == "cl" else b"Transfer-Encoding: chunked\r\n\r\n")]
+                        steps += [p if framing == "cl" else b"%x\r\n%s\r\n" % (len(p), p) for p in parts] + ([b"0\r\n\r\n"] if framing == "chunked" else [])
+                        bad = None
+                        for d in steps:
+                            try:
+                                r.feed_client(d)
+                            except NotImplementedError as e:      # the unchanged tree refuses 'response set + request streaming'; the server loop logs it and goes on
+                                refused.append(str(e))
+                            except Exception as e:
+                                if refused:
+                                    refused.append(f"{type(e).__name__} (stream wedged after the refusal)")   # observation, see report; still nothing may be forwarded
+                                    continue
+                                bad = f"{type(e).__name__}: {e}"
+                                break
+                        if bad:
+                            b.fail("c07.addon_response.total", inp, bad)
+                            continue
+                        if r.servers or r.to_all_servers():
+                            b.fail("c07.addon_response.request_not_forwarded", inp, f"{len(r.servers)} upstream connection(s) opened, upstream got {r.to_all_servers()[:100]!r}")
     return b
 
 
